@@ -213,6 +213,45 @@ def main(tier: str) -> int:
                 return impl.serialize(cfg, quads), delimited, None, None
 
             add(key, {"cfg": cfg, "statements": quads}, False, fn_ds, triples, "set")
+    # an unbuffered output that takes only part of what it is offered (a raw socket file, a pipe): the call must raise or everything must arrive
+    import io as _io  # noqa: PLC0415
+
+    class ShortWrites(_io.RawIOBase):
+        def __init__(self, limit):
+            self.limit, self.buf = limit, bytearray()
+
+        def writable(self):
+            return True
+
+        def write(self, b):
+            n = min(len(b), self.limit)
+            self.buf += bytes(b[:n])
+            return n
+
+    long_lit = ("lit", "L" * 700, "", "")
+    for integ in ("generic", "rdflib"):
+        for quads in (False, True):
+            for limit in (64, 512):
+                stmts = [(I(f"http://e/s{k}"), I("http://e/p"), (long_lit if k % 2 else I(f"http://e/o{k}"))) + ((G1,) if quads else ()) for k in range(6)]
+                mod = __import__(f"pyjelly.integrations.{integ}.serialize", fromlist=["flat_stream_to_file"])
+                sink_ = ShortWrites(limit)
+                gen_ = ((terms.stmt_to_generic(s_) if integ == "generic" else impl.rdflib_statement(s_)) for s_ in stmts)
+                key = {"integ": integ, "entry": "flat_to_file", "sclass": "quad" if quads else "triple", "ltype": "guessed", "delimited": True, "flow": "inferred",
+                       "frame_size": 250, "sinks": 1, "output": f"raw, at most {limit} bytes per write"}
+                try:
+                    mod.flat_stream_to_file(gen_, sink_)
+                except Exception:  # noqa: BLE001      (refusing a sink that cannot take the frame is honest)
+                    refused_short = True
+                    continue
+                try:
+                    rows_ = wire.rows_of(wire.dec_delimited(bytes(sink_.buf)))
+                    n_st = sum(1 for r_ in rows_ if r_["r"] in ("triple", "quad"))
+                except wire.WireError as ex:
+                    n_st = -1
+                if n_st != len(stmts):
+                    run.violation({"clause": "statements-missing", "tier1": "short-write", **key},
+                                  f"flat_stream_to_file returned normally but the output that takes at most {limit} bytes per write holds {len(sink_.buf)} bytes "
+                                  f"({'undecodable' if n_st < 0 else str(n_st) + ' of ' + str(len(stmts)) + ' statements'})", {"limit": limit, "integ": integ})
     # generic sink.serialize (options guessed)
     for quads in (False, True):
         items = sink_statements(0, quads)
